@@ -140,6 +140,6 @@ TRUSTED = [
     'external_body Str / Row (opaque), TransactionChange::clone (a copy); Database reduced to an abstract state view(): Map<table name, Multiset<Row>>',
     'external_body tm_rollback_to_savepoint: TransactionManager::rollback_to_savepoint returns the changes recorded since the savepoint (proved on the real function in unit X-sp) and does not touch table contents',
     'external_body require_table / tbl_remove_row / tbl_insert (R12): get_table_mut(&name).ok_or_else(..)? followed by table.remove_row / table.insert, as operations on the bag of the named table. ASSUMED: remove_row removes exactly one equal row or fails with RowNotFound (cf. unit K-table); insert adds exactly the given row (it was in this table before: already normalised)',
-    'NOT under contract: that INSERT / UPDATE / DELETE executors RECORD every change (Database::insert_row does; UpdateExecutor / DeleteExecutor do since the fix below; REPLACE, ON DUPLICATE KEY UPDATE, FK cascades and the user-defined index registry do not) - see KNOWN_FINDINGS',
+    'NOT under contract: that INSERT / UPDATE / DELETE executors RECORD every change (Database::insert_row does; UpdateExecutor / DeleteExecutor / REPLACE / ON DUPLICATE KEY UPDATE / FK cascades do since the two C14 fixes, shown by SQL reproductions only)',
     'row ORDER inside a table after a rollback is not part of the contract (undo re-appends rows)',
 ]
